@@ -61,6 +61,8 @@ Theorem C18_filter_is_boolean :
 Proof. exact tag_eval_bool. Qed.
 
 (* CLI over builder (src/runner/basic.rs:762-766). *)
+(* [definitional] unfolds the model's own definition: a pinned reading of the model (it breaks when the model is edited),
+   not evidence for the property by itself — the model is tied to the code by the correspondence check *)
 Theorem C18_merge :
   forall c b,
     c_retry (merge c b) = or_else (c_retry c) (b_retries b) /\
